@@ -34,12 +34,26 @@ def recipe(c: Check):
             if cc.get(k, 0) <= 0:
                 c.broken.append(dict(kind="coverage", name="health driver never reached %s" % k,
                                      detail="the generated outcome sequences did not exercise a branch the property names"))
+    st2 = c.run_driver("reconcile", q(c.tier, 160, 1500), shards=q(c.tier, 4, 16), timeout=q(c.tier, 300, 1500))
+    if st2:
+        cc = c.cov.get("coq_counters", {}).get("reconcile", {})
+        for k in ("NKEPT", "NREPLACED", "NDUPLICATE", "NRETRIED", "NRUNNING"):
+            if cc.get(k, 0) <= 0:
+                c.broken.append(dict(kind="coverage", name="reconcile driver never reached %s" % k,
+                                     detail="the generated reload histories did not exercise a branch the property names"))
     return c.finish(
         rule="health driver: real health.Monitor (tcp and http) against a scripted backend (accept / refuse / dial or answer "
              "timeout / http status), interval 24 ms, timeout 8 ms; quick: directed sequences (incl. the F-C19 witness) plus "
              "sampled sequences of length 3..7 for maxFailed in {<=0, 1..4}; thorough: every sequence of length 7 over "
              "{ok, refuse, timeout, non-2xx} for maxFailed 1..4 and both kinds; per probe the callbacks invoked are compared "
              "with Model.Health.hm_run and with the specification monitor. distinct = distinct (kind, maxFailed, sequence); "
-             "non-trivial = at least one callback fired",
+             "non-trivial = at least one callback fired. reconcile driver: real proxy.Manager with its Wrapper goroutines and a "
+             "recording MessageTransporter; histories of UpdateAll (fresh objects; add, remove, change one field found by "
+             "reflection over the five general-tcp proxy config types, reorder, duplicate names, identical reload), scripted "
+             "StartProxy replies (ok, server error, Run() error via an uncreatable plugin, for absent names, for wrappers not "
+             "waiting), health callbacks, work connections, expiry of waitResponseTimeout / startErrTimeout, Manager.Close; "
+             "statusCheckInterval = 1 h and every live checkWorker woken twice per step through its notification channel; "
+             "compared per step: set of NewProxy/CloseProxy messages, call result, status rows (name, wrapper identity, phase, "
+             "Err set, configuration object). non-trivial = at least one message observed",
         assumptions=["probe outcome, clock and the result of proxy.Run()/visitor.Run() are operation arguments (oracles)",
                      "failedTimes is a uint64 in Go and an unbounded Z in the model (2^63 consecutive failures are out of reach)"])
